@@ -167,10 +167,10 @@ def run(env, tier, seed, broken=None):
     for _ in range(20000 if tier == 'quick' else 400000):
         k = rng.randint(1, 8)
         ntexts.append([rng.choice(marks) if rng.random() < 0.45 else rng.choice(pool) for _ in range(k)])
-    # x/text deviates from UAX #15 on two kinds of exotic text (recorded findings, probed below): it inserts U+034F after
+    # x/text deviates from UAX #15 on three kinds of exotic text (recorded findings, probed below): it inserts U+034F after
     # 30 consecutive "non-starters" (counting backward-combining class-0 characters such as U+09BE or Hangul V/T jamo, and
-    # the trailing marks of a decomposition), and its composition pass lets a mark combine across such a class-0
-    # character.  The comparison with x/text therefore ranges over the texts on which the two are meant to agree.
+    # the trailing marks of a decomposition), its composition pass lets a mark combine across such a class-0 character, and it looks
+    # composites up by the low 16 bits of the two characters (U+10041 U+0301 becomes U+00C1).  The comparison with x/text therefore ranges over the texts on which the two are meant to agree.
     sstab = {int(a): (int(b), int(c)) for a, b, c in _re.findall(r'\((\d+),(\d+),(\d+)\)', gen.split('gen_ss')[1])}
     cccs = [(int(a), int(b), int(c)) for a, b, c in _re.findall(r'\((\d+),(\d+),(\d+)\)', gen.split('gen_ccc')[1].split('gen_comp')[0])]
     cccmap = {}
@@ -178,9 +178,15 @@ def run(env, tier, seed, broken=None):
         for c in range(lo, hi + 1):
             cccmap[c] = k
 
+    comp16 = set()
+    for a, b, c in _re.findall(r'\((\d+),(\d+),(\d+)\)', gen.split('gen_comp')[1].split('gen_ss')[0]):
+        comp16.add(int(a) & 0xFFFF); comp16.add(int(b) & 0xFFFF)
+
     def agreed_domain(t):
         ss, bc0 = 0, False
         for c in t:
+            if c >= 0x10000 and (c & 0xFFFF) in comp16:
+                return False      # x/text looks composites up by the low 16 bits of both characters (third recorded deviation)
             l, tr = sstab.get(c, (0, 0))
             if 0xAC00 <= c <= 0xD7A3:
                 l, tr = 0, (1 if (c - 0xAC00) % 28 == 0 else 2)
@@ -229,6 +235,7 @@ def run(env, tier, seed, broken=None):
     # the two recorded deviations of the linked x/text from UAX #15, through the real binary (KNOWN_FINDINGS.txt lists exactly
     # these inputs): the printed text must be canonically equivalent to the string (same NFD) and be in NFC
     probes = [{'id': 'probe-nfc-31-marks', 'src': '%s "a%s";\n' % (PRINT, '\u0301' * 31)},
+              {'id': 'probe-nfc-supplementary-plane', 'src': '%s "\U00010041\u0301";\n' % PRINT},
               {'id': 'probe-nfc-mark-across-backward-combiner', 'src': '%s "\u00f4\u09be\u1bf3\u0301";\n' % PRINT}]
     rp = env.run_impl([core.file_case(c['id'], c['src'], '')[0] for c in probes])
     for c in probes:
